@@ -14,6 +14,8 @@ import (
 	"bytes"
 	"image"
 	"image/color"
+	"image/jpeg"
+	"io"
 
 	"github.com/tdewolff/canvas"
 )
@@ -51,6 +53,9 @@ func vhC13StreamObj(b []byte, d vhC13Doc, n int) (es []vhC13Entry, data []byte, 
 	}
 	data = b[p.i : p.i+ln.num]
 	if f, hasF := vhC13Find(es, "Filter"); hasF {
+		if f.kind == 'n' && f.name == "DCTDecode" {
+			return es, data, true // JPEG data, returned as it is
+		}
 		if f.kind != 'n' || f.name != "FlateDecode" {
 			return es, nil, false
 		}
@@ -247,4 +252,63 @@ func VH_C13_images() {
 	}
 	vAssert("C13.images.xobjects_describe_the_images", good)
 	vAssert("C13.images.same_image_embedded_once", once)
+}
+
+// C13: images with the lossy encoding.  The JPEG encoder of the standard library writes one colour
+// component for an *image.Gray and three for every other image; the image dictionary must name a
+// colour space with that many components, or no reader can decode the stream.  The encoder is
+// replaced by a stand-in that writes a start-of-image marker and the component count.
+func vhC13JpegEncode(w io.Writer, m image.Image, o *jpeg.Options) error {
+	n := byte(3)
+	if _, ok := m.(*image.Gray); ok {
+		n = 1
+	}
+	_, err := w.Write([]byte{0xFF, 0xD8, n})
+	return err
+}
+
+func VH_C13_images_lossy() {
+	if !vInterp() {
+		return
+	}
+	vhC13Stubs()
+	vStub("!image/jpeg.Encode", vhC13JpegEncode)
+	var img image.Image
+	gray := vChoose(0, 1) == 1
+	if gray {
+		g := image.NewGray(image.Rect(0, 0, 2, 2))
+		g.Pix[1] = 200
+		img = g
+	} else {
+		img = vhC13Image(2, 2, []int{0, 1, 1, 0})
+	}
+	buf := &bytes.Buffer{}
+	r := New(buf, 100, 100, &Options{Compress: false, SubsetFonts: true, ImageEncoding: canvas.Lossy})
+	r.RenderImage(img, canvas.Identity.Translate(10, 10))
+	err := r.Close()
+	b := buf.Bytes()
+	d := vhC13Open(b)
+	vAssertI("C13.lossy.readable", err == nil && d.ok && d.xrefOK)
+	if !d.ok {
+		return
+	}
+	vAssertI("C13.lossy.objects_wellformed_and_stream_lengths", vhC13AllObjects(b, d))
+	found, good := 0, true
+	for n := 1; n < len(d.offsets); n++ {
+		es, data, ok := vhC13StreamObj(b, d, n)
+		if !ok || !vhC13NameIs(es, "Subtype", "Image") || !vhC13NameIs(es, "Filter", "DCTDecode") {
+			continue
+		}
+		found++
+		good = good && len(data) == 3 && data[0] == 0xFF && data[1] == 0xD8
+		if good {
+			if data[2] == 1 {
+				good = vhC13NameIs(es, "ColorSpace", "DeviceGray")
+			} else {
+				good = vhC13NameIs(es, "ColorSpace", "DeviceRGB")
+			}
+		}
+	}
+	vAssertI("C13.lossy.one_dct_image", found == 1)
+	vAssertI("C13.lossy.colour_space_has_the_components_of_the_jpeg", good)
 }
